@@ -80,28 +80,33 @@ Proof.
 Qed.
 
 (* ------------------------------------------------------------ the invariant *)
-Record Inv (n0 : loc) (H : aheap) (st : state) (E : aenv) : Prop := mkInv {
-  Inv_env : inv_env n0 (st_heap st) (st_env st) E;
-  Inv_heap : inv_heap n0 H (st_heap st);
-  Inv_bt : inv_bt n0 H (st_heap st);
+Record Inv (n0 : loc) (R : region) (b0 : loc -> loc) (H : aheap) (st : state) (E : aenv) : Prop := mkInv {
+  Inv_env : inv_env n0 R (st_heap st) (st_env st) E;
+  Inv_heap : inv_heap n0 R H (st_heap st);
+  Inv_bt : inv_bt n0 R b0 H (st_heap st);
+  Inv_base : inv_base n0 b0 (st_heap st);
   Inv_next : (n0 <= next (st_heap st))%nat }.
 
-Definition log_ok (n0 : loc) (st : state) : Prop := forall m, In m (st_log st) -> (n0 <= m)%nat.
+(* every logged location that existed before the call is the buffer of an object in
+   the region of a parameter q for which V has an entry (source line, q) *)
+Definition log_ok (n0 : loc) (R : region) (b0 : loc -> loc) (V : viol) (st : state) : Prop :=
+  forall m, In m (st_log st) -> (m < n0)%nat ->
+  exists ln q l, In (ln, q) V /\ R q l /\ m = b0 l.
 
-Lemma Inv_aleq : forall n0 H st E F, aleq E F -> Inv n0 H st E -> Inv n0 H st F.
+Lemma Inv_aleq : forall n0 R b0 H st E F, aleq E F -> Inv n0 R b0 H st E -> Inv n0 R b0 H st F.
 Proof.
-  intros n0 H st E F Hl [He Hh Hb Hn]. constructor; try assumption.
-  exact (inv_env_aleq n0 _ _ E F Hl He).
+  intros n0 R b0 H st E F Hl [He Hh Hb Hbs Hn]. constructor; try assumption.
+  exact (inv_env_aleq n0 R _ _ E F Hl He).
 Qed.
 
 (* binding of the parameters of an inlined callee *)
-Lemma bind_sound : forall n0 h e E ps args ls e0 E0,
-  inv_env n0 h e E ->
+Lemma bind_sound : forall n0 R h e E ps args ls e0 E0,
+  inv_env n0 R h e E ->
   Forall2 (fun a l => e a = Some l) args ls ->
   bind_locs ps ls = Some e0 -> bind_params ps (map (alook E) args) = Some E0 ->
-  inv_env n0 h e0 E0.
+  inv_env n0 R h e0 E0.
 Proof.
-  intros n0 h e E ps. induction ps as [|[x nm] ps IH]; intros args ls e0 E0 He Hf Hl Hp.
+  intros n0 R h e E ps. induction ps as [|[x nm] ps IH]; intros args ls e0 E0 He Hf Hl Hp.
   - destruct ls; [|discriminate Hl]. cbn [bind_locs] in Hl. injection Hl as <-.
     intros z m Hz. discriminate Hz.
   - destruct Hf as [|a l args ls Hal Hf]; [discriminate Hl|].
@@ -110,48 +115,69 @@ Proof.
     destruct (bind_params ps (map (alook E) args)) as [E1|] eqn:Hp1; [|discriminate Hp].
     injection Hl as <-. injection Hp as <-.
     destruct (He a l Hal) as [Hlt [b [Hb Hg]]].
-    apply (inv_env_upd n0 h e1 E1 x l (alook E a) b); try assumption.
+    apply (inv_env_upd n0 R h e1 E1 x l (alook E a) b); try assumption.
     exact (IH args ls e1 E1 He Hf Hl1 Hp1).
 Qed.
 
 (* --------------------------------------------------------------- statements *)
-Lemma write_sound : forall n0 H h h' e E x f ys l,
-  inv_env n0 h e E -> inv_heap n0 H h -> inv_bt n0 H h ->
+(* x[..] = ys: the target may be an object created during the call (the stored
+   references are recorded under its site) or one that existed before (they are
+   recorded in [po H]) *)
+Lemma write_sound : forall n0 R b0 H h h' e E x f ys l,
+  inv_env n0 R h e E -> inv_heap n0 R H h -> inv_bt n0 R b0 H h -> inv_base n0 b0 h ->
   e x = Some l -> write_rel h h' e l f ys ->
-  store_ok H f (alook E x) (alooks E ys) = true -> taint H (alook E x) = [] ->
-  ext h h' /\ inv_heap n0 H h' /\ inv_bt n0 H h' /\ next h' = next h.
+  store_ok H f (alook E x) (alooks E ys) = true ->
+  ext h h' /\ inv_heap n0 R H h' /\ inv_bt n0 R b0 H h' /\ inv_base n0 b0 h' /\ next h' = next h.
 Proof.
-  intros n0 H h h' e E x f ys l He Hh Hbt Hx [Hnext [Hsites [Hbases [Hkeep Hnew]]]] Hst Ht.
+  intros n0 R b0 H h h' e E x f ys l He Hh Hbt Hb0 Hx [Hnext [Hsites [Hbases [Hkeep Hnew]]]] Hst.
   assert (Hext : ext h h').
   { split; [lia|]. intros m _. apply Hsites. }
-  assert (Hgam : forall a k, gamma n0 h a k -> gamma n0 h' a k).
+  assert (Hgam : forall a k, gamma n0 R h a k -> gamma n0 R h' a k).
   { intros a k Hg. destruct a as [p|p|]; cbn [gamma] in *; [exact Hg| |exact Hg].
     rewrite Hsites. exact Hg. }
-  split; [exact Hext|]. split; [|split; [|exact Hnext]].
-  - intros m g k Hk. rewrite Hnext, Hsites.
-    destruct (Nat.eq_dec m l) as [->|Hml].
-    + destruct (Hnew g k Hk) as [Hold|[-> [y [Hy Hey]]]].
-      * destruct (Hh l g k Hold) as [Hlt [Ho Hn]]. split; [exact Hlt|]. split; [exact Ho|].
-        intros Hge. destruct (Hn Hge) as [a [Ha Hg]]. exists a. split; [exact Ha|exact (Hgam a k Hg)].
-      * destruct (He x l Hx) as [Hl [a [Ha Hg]]]. destruct (He y k Hey) as [Hkn [c [Hc Hgc]]].
-        assert (Ha1 : taint1 H a = []) by (apply (taint_nil_in H (aelems (alook E x))); [exact Ht|apply in_aelems; exact Ha]).
-        destruct a as [q|q|]; cbn [gamma taint1] in *; [discriminate Ha1| |destruct Hg].
-        destruct Hg as [Hge Hs]. split; [lia|]. split; [intros Hlt; lia|]. intros _.
-        exists c. split; [|exact (Hgam c k Hgc)].
-        unfold store_ok in Hst. pose proof (forallb_aelems _ _ (xO q) Hst Ha) as Hsub. cbn beta iota in Hsub.
-        rewrite Hs. apply (asubset_in _ _ c Hsub). exact (alooks_in E ys y c Hy Hc).
-    + apply Hkeep in Hk; [|exact Hml]. destruct (Hh m g k Hk) as [Hlt [Ho Hn]].
-      split; [exact Hlt|]. split; [exact Ho|]. intros Hge. destruct (Hn Hge) as [a [Ha Hg]].
+  assert (Hold : forall m g k, kids h m g k ->
+    ((m < next h')%nat /\ (k < next h')%nat) /\
+    ((m < n0)%nat -> ((k < n0)%nat /\ forall q, R q m -> R q k) \/
+                     exists a, PS.In a (po H) /\ gamma n0 R h' a k) /\
+    ((n0 <= m)%nat -> exists a, PS.In a (hp_look (hp H) (site_of h' m) g) /\ gamma n0 R h' a k)).
+  { intros m g k Hk. rewrite Hnext, Hsites. destruct (Hh m g k Hk) as [Hlt [Ho Hn]].
+    split; [exact Hlt|]. split.
+    - intros Hm. destruct (Ho Hm) as [Hcl|[a [Ha Hg]]]; [left; exact Hcl|right].
       exists a. split; [exact Ha|exact (Hgam a k Hg)].
-  - intros m Hge Hm Hb. rewrite Hsites. rewrite Hbases in Hb. rewrite Hnext in Hm. exact (Hbt m Hge Hm Hb).
+    - intros Hge. destruct (Hn Hge) as [a [Ha Hg]]. exists a. split; [exact Ha|exact (Hgam a k Hg)]. }
+  split; [exact Hext|]. split; [|split; [|split; [|exact Hnext]]].
+  - intros m g k Hk. destruct (Nat.eq_dec m l) as [->|Hml].
+    + destruct (Hnew g k Hk) as [Hk0|[-> [y [Hy Hey]]]]; [exact (Hold l g k Hk0)|].
+      destruct (He x l Hx) as [Hl [a [Ha Hg]]]. destruct (He y k Hey) as [Hkn [c [Hc Hgc]]].
+      unfold store_ok in Hst. pose proof (forallb_aelems _ _ a Hst Ha) as Hsub. cbn beta in Hsub.
+      pose proof (alooks_in E ys y c Hy Hc) as Hcv.
+      rewrite Hnext. split; [lia|].
+      destruct a as [q|q|]; cbn [gamma] in Hg; [| |destruct Hg].
+      * destruct Hg as [Hlo _]. split; [|intros Hge; lia]. intros _. right.
+        exists c. split; [exact (asubset_in _ _ c Hsub Hcv)|exact (Hgam c k Hgc)].
+      * destruct Hg as [Hge Hs]. split; [intros Hlt; lia|]. intros _.
+        exists c. split; [|exact (Hgam c k Hgc)].
+        rewrite Hsites, Hs. exact (asubset_in _ _ c Hsub Hcv).
+    + apply Hkeep in Hk; [|exact Hml]. exact (Hold m g k Hk).
+  - intros m Hge Hm Hb. rewrite Hsites. rewrite Hbases in Hb. rewrite Hbases. rewrite Hnext in Hm. exact (Hbt m Hge Hm Hb).
+  - intros m Hm. rewrite Hbases. exact (Hb0 m Hm).
 Qed.
 
-Theorem exec_sound : forall p H n0 s st o st',
-  exec p s st o st' ->
-  forall d E E', chk p H d s E = Some (E', []) -> Inv n0 H st E -> log_ok n0 st ->
-  log_ok n0 st' /\ (o = Normal -> Inv n0 H st' E' /\ ext (st_heap st) (st_heap st')).
+Lemma log_ok_incl : forall n0 R b0 V W st, incl V W -> log_ok n0 R b0 V st -> log_ok n0 R b0 W st.
 Proof.
-  intros p H n0 s st o st' Hex.
+  intros n0 R b0 V W st Hi Hl m Hm Hlt. destruct (Hl m Hm Hlt) as [ln [q [l [Hin Hr]]]].
+  exists ln, q, l. split; [exact (Hi _ Hin)|exact Hr].
+Qed.
+
+(* The main induction.  V is any superset of the violations the checker reports for
+   the statement (the report of the enclosing function). *)
+Theorem exec_sound : forall p H n0 R b0 s st o st',
+  exec p s st o st' ->
+  forall d E E' v V, chk p H d s E = Some (E', v) -> incl v V ->
+  Inv n0 R b0 H st E -> log_ok n0 R b0 V st ->
+  log_ok n0 R b0 V st' /\ (o = Normal -> Inv n0 R b0 H st' E' /\ ext (st_heap st) (st_heap st')).
+Proof.
+  intros p H n0 R b0 s st o st' Hex.
   induction Hex as
     [s st
     |st
@@ -166,116 +192,122 @@ Proof.
     |b st st1 Hb IHb
     |x f args st fd ls e0 st1 Hfind Hargs Hbind Hbody IHbody
     |x f args st fd ls e0 st1 Hfind Hargs Hbind Hbody IHbody];
-    intros d E E' Hc Hinv Hlog; (destruct d as [|d]; [rewrite chk_0 in Hc; discriminate Hc|]).
+    intros d E E' v V Hc HV Hinv Hlog; (destruct d as [|d]; [rewrite chk_0 in Hc; discriminate Hc|]).
   - (* abort *) split; [exact Hlog|discriminate].
-  - (* skip *) rewrite chk_skip in Hc. injection Hc as <-. split; [exact Hlog|]. intros _. split; [exact Hinv|apply ext_refl].
+  - (* skip *) rewrite chk_skip in Hc. injection Hc as <- <-. split; [exact Hlog|]. intros _. split; [exact Hinv|apply ext_refl].
   - (* assign *)
-    rewrite chk_assign in Hc. destruct (eval_expr H E e) as [v|] eqn:Hv; [|discriminate Hc]. injection Hc as <-.
-    destruct Hinv as [He Hh Hbt Hn].
-    destruct (eval_sound n0 H _ _ E e h' l Hev v Hv He Hh Hbt Hn) as [Hext [Hh' [Hbt' [Hl [a [Ha Hg]]]]]].
+    rewrite chk_assign in Hc. destruct (eval_expr H E e) as [w|] eqn:Hv; [|discriminate Hc]. injection Hc as <- <-.
+    destruct Hinv as [He Hh Hbt Hb0 Hn].
+    destruct (eval_sound n0 R b0 H _ _ E e h' l Hev w Hv He Hh Hbt Hb0 Hn) as [Hext [Hh' [Hbt' [Hb0' [Hl [a [Ha Hg]]]]]]].
     split; [exact Hlog|]. intros _. split; [|exact Hext].
     constructor; cbn [st_env st_heap]; try assumption.
-    + apply (inv_env_upd n0 h' _ E x l v a); try assumption. exact (inv_env_ext n0 _ h' _ E Hext He).
+    + apply (inv_env_upd n0 R h' _ E x l w a); try assumption. exact (inv_env_ext n0 R _ h' _ E Hext He).
     + destruct Hext. lia.
   - (* write *)
     rewrite chk_write in Hc.
     destruct (store_ok H f (alook E x) (alooks E ys)) eqn:Hst; [|discriminate Hc].
-    injection Hc as <- Hv.
-    assert (Ht : taint H (alook E x) = []) by (destruct (taint H (alook E x)); [reflexivity|discriminate Hv]).
-    destruct Hinv as [He Hh Hbt Hn].
-    destruct (write_sound n0 H _ h' _ E x f ys l He Hh Hbt Hx Hw Hst Ht) as [Hext [Hh' [Hbt' Hnx]]].
+    injection Hc as <- <-.
+    destruct Hinv as [He Hh Hbt Hb0 Hn].
+    destruct (write_sound n0 R b0 H _ h' _ E x f ys l He Hh Hbt Hb0 Hx Hw Hst) as [Hext [Hh' [Hbt' [Hb0' Hnx]]]].
     split.
-    + intros m Hm. cbn [st_log] in Hm. destruct Hm as [<-|Hm]; [|exact (Hlog m Hm)].
-      exact (write_safe n0 H _ _ E x l He Hbt Hx Ht).
+    + intros m Hm Hlt. cbn [st_log] in Hm. destruct Hm as [<-|Hm]; [|exact (Hlog m Hm Hlt)].
+      destruct (write_attr n0 R b0 H _ _ E x l He Hbt Hb0 Hx Hlt) as [q [l' [Hq [Hr Hbl]]]].
+      exists ln, q, l'. split; [|split; assumption].
+      apply HV. apply in_map_iff. exists q. split; [reflexivity|exact Hq].
     + intros _. split; [|exact Hext]. constructor; cbn [st_env st_heap]; try assumption.
-      * exact (inv_env_ext n0 _ h' _ E Hext He).
+      * exact (inv_env_ext n0 R _ h' _ E Hext He).
       * rewrite Hnx. exact Hn.
   - (* seq *)
     rewrite chk_seq in Hc.
     destruct (chk p H (S d) a E) as [[E1 v1]|] eqn:Hca; [|discriminate Hc].
     destruct (chk p H (S d) b E1) as [[E2 v2]|] eqn:Hcb; [|discriminate Hc].
-    injection Hc as <- Hv. apply app_eq_nil in Hv. destruct Hv as [-> ->].
-    destruct (IHa _ _ _ Hca Hinv Hlog) as [Hlog1 Hn1]. destruct (Hn1 eq_refl) as [Hinv1 Hext1].
-    destruct (IHb _ _ _ Hcb Hinv1 Hlog1) as [Hlog2 Hn2]. split; [exact Hlog2|].
+    injection Hc as <- <-. apply incl_app_inv in HV. destruct HV as [HV1 HV2].
+    destruct (IHa _ _ _ _ _ Hca HV1 Hinv Hlog) as [Hlog1 Hn1]. destruct (Hn1 eq_refl) as [Hinv1 Hext1].
+    destruct (IHb _ _ _ _ _ Hcb HV2 Hinv1 Hlog1) as [Hlog2 Hn2]. split; [exact Hlog2|].
     intros Ho. destruct (Hn2 Ho) as [Hinv2 Hext2]. split; [exact Hinv2|exact (ext_trans _ _ _ Hext1 Hext2)].
   - (* seq, first part aborts *)
     rewrite chk_seq in Hc.
     destruct (chk p H (S d) a E) as [[E1 v1]|] eqn:Hca; [|discriminate Hc].
     destruct (chk p H (S d) b E1) as [[E2 v2]|] eqn:Hcb; [|discriminate Hc].
-    injection Hc as <- Hv. apply app_eq_nil in Hv. destruct Hv as [-> ->].
-    destruct (IHa _ _ _ Hca Hinv Hlog) as [Hlog1 _]. split; [exact Hlog1|discriminate].
+    injection Hc as <- <-. apply incl_app_inv in HV. destruct HV as [HV1 HV2].
+    destruct (IHa _ _ _ _ _ Hca HV1 Hinv Hlog) as [Hlog1 _]. split; [exact Hlog1|discriminate].
   - (* if, left *)
     rewrite chk_if in Hc.
     destruct (chk p H (S d) a E) as [[E1 v1]|] eqn:Hca; [|discriminate Hc].
     destruct (chk p H (S d) b E) as [[E2 v2]|] eqn:Hcb; [|discriminate Hc].
-    injection Hc as <- Hv. apply app_eq_nil in Hv. destruct Hv as [-> ->].
-    destruct (IHa _ _ _ Hca Hinv Hlog) as [Hlog1 Hn1]. split; [exact Hlog1|].
+    injection Hc as <- <-. apply incl_app_inv in HV. destruct HV as [HV1 HV2].
+    destruct (IHa _ _ _ _ _ Hca HV1 Hinv Hlog) as [Hlog1 Hn1]. split; [exact Hlog1|].
     intros Ho. destruct (Hn1 Ho) as [Hinv1 Hext1]. split; [|exact Hext1].
-    exact (Inv_aleq n0 H _ E1 _ (aenv_join_l E1 E2) Hinv1).
+    exact (Inv_aleq n0 R b0 H _ E1 _ (aenv_join_l E1 E2) Hinv1).
   - (* if, right *)
     rewrite chk_if in Hc.
     destruct (chk p H (S d) a E) as [[E1 v1]|] eqn:Hca; [|discriminate Hc].
     destruct (chk p H (S d) b E) as [[E2 v2]|] eqn:Hcb; [|discriminate Hc].
-    injection Hc as <- Hv. apply app_eq_nil in Hv. destruct Hv as [-> ->].
-    destruct (IHb _ _ _ Hcb Hinv Hlog) as [Hlog1 Hn1]. split; [exact Hlog1|].
+    injection Hc as <- <-. apply incl_app_inv in HV. destruct HV as [HV1 HV2].
+    destruct (IHb _ _ _ _ _ Hcb HV2 Hinv Hlog) as [Hlog1 Hn1]. split; [exact Hlog1|].
     intros Ho. destruct (Hn1 Ho) as [Hinv1 Hext1]. split; [|exact Hext1].
-    exact (Inv_aleq n0 H _ E2 _ (aenv_join_r E1 E2) Hinv1).
+    exact (Inv_aleq n0 R b0 H _ E2 _ (aenv_join_r E1 E2) Hinv1).
   - (* loop, zero iterations *)
     rewrite chk_loop in Hc.
-    destruct (loop_inv (chk p H (S d) b) LOOPFUEL E) as [[Ei v]|] eqn:Hli; [|discriminate Hc].
-    destruct (aenv_leq E Ei) eqn:Hle; [|discriminate Hc]. injection Hc as <- ->.
+    destruct (loop_inv (chk p H (S d) b) LOOPFUEL E) as [[Ei w]|] eqn:Hli; [|discriminate Hc].
+    destruct (aenv_leq E Ei) eqn:Hle; [|discriminate Hc]. injection Hc as <- <-.
     split; [exact Hlog|]. intros _. split; [|apply ext_refl].
-    exact (Inv_aleq n0 H _ E Ei (aenv_leq_aleq _ _ Hle) Hinv).
+    exact (Inv_aleq n0 R b0 H _ E Ei (aenv_leq_aleq _ _ Hle) Hinv).
   - (* loop, one more iteration *)
     rewrite chk_loop in Hc.
-    destruct (loop_inv (chk p H (S d) b) LOOPFUEL E) as [[Ei v]|] eqn:Hli; [|discriminate Hc].
-    destruct (aenv_leq E Ei) eqn:Hle; [|discriminate Hc]. injection Hc as <- ->.
+    destruct (loop_inv (chk p H (S d) b) LOOPFUEL E) as [[Ei w]|] eqn:Hli; [|discriminate Hc].
+    destruct (aenv_leq E Ei) eqn:Hle; [|discriminate Hc]. injection Hc as <- <-.
     destruct (loop_inv_spec _ _ _ _ _ Hli) as [E1 [Hcb Hle1]].
-    pose proof (Inv_aleq n0 H _ E Ei (aenv_leq_aleq _ _ Hle) Hinv) as Hinvi.
-    destruct (IHb _ _ _ Hcb Hinvi Hlog) as [Hlog1 Hn1]. destruct (Hn1 eq_refl) as [Hinv1 Hext1].
-    pose proof (Inv_aleq n0 H _ E1 Ei (aenv_leq_aleq _ _ Hle1) Hinv1) as Hinv1i.
-    assert (Hcl : chk p H (S d) (SLoop b) Ei = Some (Ei, [])).
-    { rewrite chk_loop, (loop_inv_at_fix _ LOOPFUEL Ei E1 [] Hcb Hle1), aenv_leq_refl. reflexivity. }
-    destruct (IHl _ _ _ Hcl Hinv1i Hlog1) as [Hlog2 Hn2]. split; [exact Hlog2|].
+    pose proof (Inv_aleq n0 R b0 H _ E Ei (aenv_leq_aleq _ _ Hle) Hinv) as Hinvi.
+    destruct (IHb _ _ _ _ _ Hcb HV Hinvi Hlog) as [Hlog1 Hn1]. destruct (Hn1 eq_refl) as [Hinv1 Hext1].
+    pose proof (Inv_aleq n0 R b0 H _ E1 Ei (aenv_leq_aleq _ _ Hle1) Hinv1) as Hinv1i.
+    assert (Hcl : chk p H (S d) (SLoop b) Ei = Some (Ei, w)).
+    { rewrite chk_loop, (loop_inv_at_fix _ LOOPFUEL Ei E1 w Hcb Hle1), aenv_leq_refl. reflexivity. }
+    destruct (IHl _ _ _ _ _ Hcl HV Hinv1i Hlog1) as [Hlog2 Hn2]. split; [exact Hlog2|].
     intros Ho. destruct (Hn2 Ho) as [Hinv2 Hext2]. split; [exact Hinv2|exact (ext_trans _ _ _ Hext1 Hext2)].
   - (* loop, the body aborts *)
     rewrite chk_loop in Hc.
-    destruct (loop_inv (chk p H (S d) b) LOOPFUEL E) as [[Ei v]|] eqn:Hli; [|discriminate Hc].
-    destruct (aenv_leq E Ei) eqn:Hle; [|discriminate Hc]. injection Hc as <- ->.
+    destruct (loop_inv (chk p H (S d) b) LOOPFUEL E) as [[Ei w]|] eqn:Hli; [|discriminate Hc].
+    destruct (aenv_leq E Ei) eqn:Hle; [|discriminate Hc]. injection Hc as <- <-.
     destruct (loop_inv_spec _ _ _ _ _ Hli) as [E1 [Hcb Hle1]].
-    pose proof (Inv_aleq n0 H _ E Ei (aenv_leq_aleq _ _ Hle) Hinv) as Hinvi.
-    destruct (IHb _ _ _ Hcb Hinvi Hlog) as [Hlog1 _]. split; [exact Hlog1|discriminate].
+    pose proof (Inv_aleq n0 R b0 H _ E Ei (aenv_leq_aleq _ _ Hle) Hinv) as Hinvi.
+    destruct (IHb _ _ _ _ _ Hcb HV Hinvi Hlog) as [Hlog1 _]. split; [exact Hlog1|discriminate].
   - (* call *)
     rewrite chk_call, Hfind in Hc.
     destruct (bind_params (fn_params fd) (map (alook E) args)) as [E0|] eqn:Hbp; [|discriminate Hc].
-    destruct (chk p H d (fn_body fd) E0) as [[E1 v]|] eqn:Hcb; [|discriminate Hc].
-    injection Hc as <- ->.
-    destruct Hinv as [He Hh Hbt Hn].
-    assert (Hinv0 : Inv n0 H (mkst e0 (st_heap st) (st_log st)) E0).
+    destruct (chk p H d (fn_body fd) E0) as [[E1 w]|] eqn:Hcb; [|discriminate Hc].
+    injection Hc as <- <-.
+    destruct Hinv as [He Hh Hbt Hb0 Hn].
+    assert (Hinv0 : Inv n0 R b0 H (mkst e0 (st_heap st) (st_log st)) E0).
     { constructor; cbn [st_env st_heap]; try assumption.
-      exact (bind_sound n0 _ _ E _ args ls e0 E0 He Hargs Hbind Hbp). }
-    destruct (IHbody _ _ _ Hcb Hinv0 Hlog) as [Hlog1 Hn1]. split; [exact Hlog1|].
-    intros _. destruct (Hn1 eq_refl) as [[He1 Hh1 Hbt1 Hnx1] Hext1]. cbn [st_heap] in Hext1.
+      exact (bind_sound n0 R _ _ E _ args ls e0 E0 He Hargs Hbind Hbp). }
+    destruct (IHbody _ _ _ _ _ Hcb HV Hinv0 Hlog) as [Hlog1 Hn1]. split; [exact Hlog1|].
+    intros _. destruct (Hn1 eq_refl) as [[He1 Hh1 Hbt1 Hb01 Hnx1] Hext1]. cbn [st_heap] in Hext1.
     split; [|exact Hext1]. constructor; cbn [st_env st_heap]; try assumption.
-    pose proof (inv_env_ext n0 _ _ _ E Hext1 He) as He'.
+    pose proof (inv_env_ext n0 R _ _ _ E Hext1 He) as He'.
     destruct (st_env st1 ret_var) as [lr|] eqn:Hret.
     + destruct (He1 ret_var lr Hret) as [Hlr [a [Ha Hg]]].
-      exact (inv_env_upd n0 _ _ E x lr _ a He' Hlr Ha Hg).
+      exact (inv_env_upd n0 R _ _ E x lr _ a He' Hlr Ha Hg).
     + intros z m Hz. unfold upd in Hz. rewrite alook_aset, (N.eqb_sym x z).
       destruct (z =? x); [discriminate Hz|exact (He' z m Hz)].
   - (* call, the callee aborts *)
     rewrite chk_call, Hfind in Hc.
     destruct (bind_params (fn_params fd) (map (alook E) args)) as [E0|] eqn:Hbp; [|discriminate Hc].
-    destruct (chk p H d (fn_body fd) E0) as [[E1 v]|] eqn:Hcb; [|discriminate Hc].
-    injection Hc as <- ->.
-    destruct Hinv as [He Hh Hbt Hn].
-    assert (Hinv0 : Inv n0 H (mkst e0 (st_heap st) (st_log st)) E0).
+    destruct (chk p H d (fn_body fd) E0) as [[E1 w]|] eqn:Hcb; [|discriminate Hc].
+    injection Hc as <- <-.
+    destruct Hinv as [He Hh Hbt Hb0 Hn].
+    assert (Hinv0 : Inv n0 R b0 H (mkst e0 (st_heap st) (st_log st)) E0).
     { constructor; cbn [st_env st_heap]; try assumption.
-      exact (bind_sound n0 _ _ E _ args ls e0 E0 He Hargs Hbind Hbp). }
-    destruct (IHbody _ _ _ Hcb Hinv0 Hlog) as [Hlog1 _]. split; [exact Hlog1|discriminate].
+      exact (bind_sound n0 R _ _ E _ args ls e0 E0 He Hargs Hbind Hbp). }
+    destruct (IHbody _ _ _ _ _ Hcb HV Hinv0 Hlog) as [Hlog1 _]. split; [exact Hlog1|discriminate].
 Qed.
 
 (* ------------------------------------------------------------ initial states *)
+(* the region of parameter q: what was reachable from the object bound to q when the
+   call started *)
+Definition region_of (st : state) : region :=
+  fun q l => exists l0, st_env st q = Some l0 /\ reach (st_heap st) l0 l.
+
 Lemma alook_entry_env : forall (ps : list (var * string)) x nm,
   In (x, nm) ps ->
   alook (fold_right (fun (xn : var * string) E => aset E (fst xn) (asingle (AParam (fst xn)))) [] ps) x = asingle (AParam x).
@@ -285,34 +317,60 @@ Proof.
   destruct Hin as [Heq|Hin]; [injection Heq as -> _; contradiction|]. exact (IH x nm Hin).
 Qed.
 
-Lemma initial_Inv : forall H fd n0 st, initial fd n0 st -> Inv n0 H st (entry_env fd) /\ log_ok n0 st.
+Lemma initial_Inv : forall H fd n0 st V, initial fd n0 st ->
+  Inv n0 (region_of st) (base (st_heap st)) H st (entry_env fd) /\
+  log_ok n0 (region_of st) (base (st_heap st)) V st.
 Proof.
-  intros H fd n0 st [Hnext [Hlog [Henv [Hkids Hbase]]]]. split.
+  intros H fd n0 st V [Hnext [Hlog [Henv [Hkids Hbase]]]]. split.
   - constructor.
     + intros x l Hx. destruct (Henv x l Hx) as [Hlt [nm Hin]]. split; [lia|].
       exists (AParam x). unfold entry_env. rewrite (alook_entry_env _ x nm Hin).
-      split; [apply asingle_in|]. exact Hlt.
-    + intros l g k Hk. destruct (Hkids l g k Hk) as [Hl Hkn]. split; [lia|]. split; [intros _; exact Hkn|]. lia.
+      split; [apply asingle_in|]. cbn [gamma AParam]. split; [exact Hlt|].
+      rewrite N.pos_pred_succ. exists l. split; [exact Hx|apply reach_refl].
+    + intros l g k Hk. destruct (Hkids l g k Hk) as [Hl Hkn]. split; [lia|]. split; [|lia].
+      intros _. left. split; [exact Hkn|]. intros q [l0 [Hq Hr]]. exists l0. split; [exact Hq|].
+      exact (reach_step _ l0 l g k Hr Hk).
     + intros l Hge Hlt. lia.
+    + intros l _. reflexivity.
     + lia.
   - intros m Hm. rewrite Hlog in Hm. destruct Hm.
 Qed.
 
-(* ------------------------------------------------------------- the theorem *)
-(* If the checker accepts fd then, in every execution of fd's body (and in every
-   prefix of one: [ex_abort]) from any initial state, every logged write is to
+(* ------------------------------------------------------------- the theorems *)
+(* ATTRIBUTION.  If the analysis of fd ends with the report v then, in every execution
+   of fd's body (and every prefix: [ex_abort]) from any initial state, every logged
+   write to storage that existed before the call hits the buffer of an object that was
+   reachable, when the call started, from a parameter q that the report names
+   (with some source line). *)
+Theorem analyse_sound : forall p fd n0 st o st' v,
+  analyse p fd = Some v -> initial fd n0 st -> exec p (fn_body fd) st o st' ->
+  forall m, In m (st_log st') -> (m < n0)%nat ->
+  exists ln q l0 l, In (ln, q) v /\ st_env st q = Some l0 /\ reach (st_heap st) l0 l /\
+                    m = base (st_heap st) l.
+Proof.
+  intros p fd n0 st o st' v Han Hinit Hex m Hm Hlt.
+  unfold analyse in Han.
+  set (H := infer_fix p DEPTH (fn_body fd) (entry_env fd) HEAPFUEL (mkheap [] [] aempty)) in Han.
+  destruct (chk p H DEPTH (fn_body fd) (entry_env fd)) as [[E' w]|] eqn:Hc; [|discriminate Han].
+  injection Han as ->.
+  destruct (initial_Inv H fd n0 st v Hinit) as [Hinv Hlog].
+  destruct (exec_sound p H n0 _ _ _ _ _ _ Hex DEPTH _ _ _ v Hc (incl_refl v) Hinv Hlog) as [Hlog' _].
+  destruct (Hlog' m Hm Hlt) as [ln [q [l [Hin [[l0 [Hq Hr]] Hb]]]]].
+  exists ln, q, l0, l. repeat split; assumption.
+Qed.
+
+(* SAFETY.  If the checker accepts fd (empty report) then, in every execution of fd's
+   body (and in every prefix of one) from any initial state, every logged write is to
    storage created during the call. *)
 Theorem safe_sound : forall p fd n0 st o st',
   safe p fd = true -> initial fd n0 st -> exec p (fn_body fd) st o st' ->
   forall l, In l (st_log st') -> (n0 <= l)%nat.
 Proof.
-  intros p fd n0 st o st' Hsafe Hinit Hex.
-  unfold safe, analyse in Hsafe.
-  set (H := infer_fix p DEPTH (fn_body fd) (entry_env fd) HEAPFUEL (mkheap [] [])) in Hsafe.
-  destruct (chk p H DEPTH (fn_body fd) (entry_env fd)) as [[E' v]|] eqn:Hc; [|discriminate Hsafe].
-  destruct v as [|? ?]; [|discriminate Hsafe].
-  destruct (initial_Inv H fd n0 st Hinit) as [Hinv Hlog].
-  destruct (exec_sound p H n0 _ _ _ _ Hex DEPTH _ _ Hc Hinv Hlog) as [Hlog' _]. exact Hlog'.
+  intros p fd n0 st o st' Hsafe Hinit Hex l Hl.
+  unfold safe in Hsafe. destruct (analyse p fd) as [[|? ?]|] eqn:Han; try discriminate Hsafe.
+  destruct (Nat.lt_ge_cases l n0) as [Hlt|Hge]; [|exact Hge].
+  destruct (analyse_sound p fd n0 st o st' [] Han Hinit Hex l Hl Hlt) as [ln [q [l0 [l' [Hin _]]]]].
+  destruct Hin.
 Qed.
 
 (* The fuel.  The checker never answers "safe" because it ran out of depth fuel: a
@@ -365,5 +423,49 @@ Theorem entry_points_sound : forall p fd n0 st o st',
   forall l, In l (st_log st') -> (n0 <= l)%nat.
 Proof.
   intros p fd n0 st o st' Hall Hin Hacc. apply safe_sound. apply ok_entry_safe; [exact Hacc|].
+  rewrite forallb_forall in Hall. exact (Hall fd Hin).
+Qed.
+
+(* ------------------- the generated obligation, with the parameters on record *)
+Lemma dedup_In : forall l q, In q l -> In q (dedup l).
+Proof.
+  induction l as [|a l IH]; intros q Hq; [destruct Hq|]. cbn [dedup].
+  destruct (nmem a l) eqn:Hm.
+  - destruct Hq as [<-|Hq]; [apply IH; apply nmem_In; exact Hm|exact (IH q Hq)].
+  - destruct Hq as [<-|Hq]; [left; reflexivity|right; exact (IH q Hq)].
+Qed.
+
+Lemma smem_In : forall a l, smem a l = true -> In a l.
+Proof.
+  intros a l Hs. unfold smem in Hs. apply existsb_exists in Hs. destruct Hs as [b [Hb He]].
+  apply String.eqb_eq in He. subst b. exact Hb.
+Qed.
+
+(* what [ok_entry] means: every write to pre-existing storage, in every execution,
+   hits the buffer of an object that was reachable at entry from a parameter whose
+   name is on record for this function in [accepted_unsafe] *)
+Theorem ok_entry_sound : forall p fd n0 st o st',
+  ok_entry p fd = true -> initial fd n0 st -> exec p (fn_body fd) st o st' ->
+  forall m, In m (st_log st') -> (m < n0)%nat ->
+  exists q l0 l, In (pname (fn_params fd) q) (accepted_params accepted_unsafe (fn_name fd)) /\
+                 st_env st q = Some l0 /\ reach (st_heap st) l0 l /\ m = base (st_heap st) l.
+Proof.
+  intros p fd n0 st o st' Hok Hinit Hex m Hm Hlt.
+  unfold ok_entry, mutated_params in Hok.
+  destruct (analyse p fd) as [v|] eqn:Han; [|discriminate Hok].
+  destruct (analyse_sound p fd n0 st o st' v Han Hinit Hex m Hm Hlt) as [ln [q [l0 [l [Hin [Hq [Hr Hb]]]]]]].
+  exists q, l0, l. split; [|repeat split; assumption].
+  rewrite forallb_forall in Hok. apply smem_In. apply Hok.
+  apply in_map. apply dedup_In. apply (in_map snd) in Hin. exact Hin.
+Qed.
+
+Theorem entry_points_sound_attr : forall p fd n0 st o st',
+  forallb (ok_entry p) (entry_points p) = true -> In fd (entry_points p) ->
+  initial fd n0 st -> exec p (fn_body fd) st o st' ->
+  forall m, In m (st_log st') -> (m < n0)%nat ->
+  exists q l0 l, In (pname (fn_params fd) q) (accepted_params accepted_unsafe (fn_name fd)) /\
+                 st_env st q = Some l0 /\ reach (st_heap st) l0 l /\ m = base (st_heap st) l.
+Proof.
+  intros p fd n0 st o st' Hall Hin. apply ok_entry_sound.
   rewrite forallb_forall in Hall. exact (Hall fd Hin).
 Qed.
